@@ -12,3 +12,7 @@ define("in_box(S, l)", "forall(d, 0, D, S[l, d, MIN] <= sigma[d] and sigma[d] <=
 define("remaining(S, t)", "exists(l, 0, t + 1, in_box(S, l))")
 # two stack levels are separated on the domain recorded when the lower one was left as an alternative (no existential needed)
 define("disjoint_levels(S, U, t)", "forall(l1, 0, t, forall(l2, l1 + 1, t + 1, S[l1, U[l1, 0], MAX] < S[l2, U[l1, 0], MIN] or S[l2, U[l1, 0], MAX] < S[l1, U[l1, 0], MIN]))")
+
+# ---- acceptance layer (C01 composition, full-mask constraints): sigma is an arbitrary ghost point of the shared domains
+define("fullmask(p)", "forall(k, var_bounds[p, RG_START], var_bounds[p, RG_END], has(triggers[props_dom_indices[k], p], EVENT_MASK_MIN) and has(triggers[props_dom_indices[k], p], EVENT_MASK_MAX))")
+define("onpoint(S, l, p)", "forall(k, var_bounds[p, RG_START], var_bounds[p, RG_END], S[l, props_dom_indices[k], MIN] == sigma[props_dom_indices[k]] and S[l, props_dom_indices[k], MAX] == sigma[props_dom_indices[k]])")
